@@ -44,6 +44,11 @@ def run_all(ctx):
     spec = ctx.spec("sequences.json")
     replies = ctx.spec("replies.json")
     seqs, default_body = sequences(zvt)
+    cmds = {}
+    for im in zvt.impls:
+        if im.get("trait") == "zvt_builder::ZvtCommand":
+            c = {x["name"]: x.get("v") for x in im["consts"]}
+            cmds[ty_str(im["self"])] = (c.get("CLASS"), c.get("INSTR"))
     results = {}
     for name, ent in sorted(seqs.items()):
         res = dict(findings=[], stats={}, ent=ent, spec=spec.get(name))
@@ -61,7 +66,16 @@ def run_all(ctx):
             res["findings"].append(events.Finding("C05", "reply-enum", "reply enum %s not found" % out_enum, ent["sp"], ""))
             continue
         variants = [v["name"] for v in adt["variants"]]
-        rep = replies.get(out_enum, {}).get("variants", {})
+        # variant -> control field, read off the enum itself (payload type's CLASS / INSTR): the specification tables are keyed
+        # by the name the reply enum has on the pinned tree, the enum a sequence parses may be a shared one under another name
+        rep = {}
+        for v in adt["variants"]:
+            pty = ty_str(v["fields"][0]["ty"]) if len(v.get("fields", [])) == 1 else None
+            if pty in cmds and None not in cmds[pty]:
+                rep[v["name"]] = list(cmds[pty])
+        if not rep:
+            rep = replies.get(out_enum, {}).get("variants", {})
+        res["reply_fields"] = rep
         if sp["final"] == "all":
             final = list(variants)
         else:
@@ -75,8 +89,12 @@ def run_all(ctx):
             res["findings"].append(events.Finding("C05", "command-type", "sequence sends %s, specification table says %s"
                                                   % (ent["input"], sp["input"]), ent["sp"], ""))
         if ent["output"] != sp["output"]:
-            res["findings"].append(events.Finding("C05", "reply-type", "sequence parses %s, specification table says %s"
-                                                  % (ent["output"], sp["output"]), ent["sp"], ""))
+            # another enum than the table names: the same reply set (by control fields) is the same thing
+            want_set = sorted(map(tuple, replies.get(sp["output"], {}).get("variants", {}).values()))
+            got_set = sorted(map(tuple, rep.values()))
+            if not want_set or want_set != got_set:
+                res["findings"].append(events.Finding("C05", "reply-type", "sequence parses %s (control fields %s), specification table "
+                                                      "says %s (%s)" % (ent["output"], got_set, sp["output"], want_set), ent["sp"], ""))
         if ent["default"] and not sp.get("single_reply"):
             res["findings"].append(events.Finding("C05", "stop-at-final", "the sequence uses the single-reply default body but "
                                                   "the command has intermediate replies", ent["sp"], ""))
